@@ -9,7 +9,7 @@ worktrees of /repo and, if everything holds, keeps it as /verif/seeded/<Cxx-n>/:
 import sys, os, re, json, subprocess, shutil, glob, time
 sid = sys.argv[1]; prop = sid.split('-')[0]
 checks = sys.argv[2:] or [prop]
-src = '/tmp/mut/out/' + sid
+src = os.environ.get('SEED_SRC', '/tmp/mut/out') + '/' + sid
 dst = '/verif/seeded/' + sid
 env = dict(os.environ, GOFLAGS='-mod=mod', GOPROXY='off', GOSUMDB='off', GOTOOLCHAIN='local')
 def sh(cmd, cwd=None, timeout=1800, extra=None):
